@@ -1,17 +1,20 @@
 #!/bin/bash
-# selftest/run_mutant.sh <patch> <ID> [<ID>...]: apply patch to /repo, run the quick checks,
-# expect exit 1 from at least the first ID; always revert.
+# selftest/run_mutant.sh <patch> <ID> [<ID>...]: apply the patch to a scratch worktree of /repo
+# (never to /repo itself), run the quick checks against it (VERIF_REPO), expect exit 1.
 set -u
 PATCH="$(realpath "$1")"; shift
-cd /repo || exit 2
-if ! git diff --quiet; then echo "repo dirty" >&2; exit 2; fi
+WT=/tmp/mutant-wt
+if [ ! -d $WT ]; then git -C /repo worktree add -q --detach $WT HEAD || exit 2; cp /repo/Cargo.lock $WT/; fi
+cd $WT || exit 2
+git checkout -q --detach $(git -C /repo rev-parse HEAD) 2>/dev/null
+git checkout -q -- .
 git apply "$PATCH" || { echo "patch does not apply" >&2; exit 2; }
-trap 'git -C /repo checkout -- . ' EXIT
 RC=0
 for ID in "$@"; do
-  out=$(/verif/check "$ID" --tier quick 2>&1); rc=$?
+  out=$(VERIF_REPO=$WT /verif/check "$ID" --tier quick 2>&1); rc=$?
   echo "== $(basename "$PATCH") $ID -> exit $rc"
   echo "$out" | grep -E "VIOLATION|KNOWN|machinery|bound" | head -8
   [ $rc -eq 1 ] || RC=1
 done
+git checkout -q -- .
 exit $RC
